@@ -294,6 +294,26 @@ def t17_ya(run, fx):
                  "%s:%s" % (b.file, b.line))
 
 
+def t17_sort(run, fx):
+    rule = "T17-SORT"
+    run.rule(rule, "every maximal run of reordering marks is sorted, whatever its length: in sort_by_modified_combining_class the sort call is not "
+                   "control-dependent on any comparison (no length threshold, no early continue); the only branching is the iteration itself")
+    b = fx.body("unicode::mcc::sort_by_modified_combining_class")
+    if b is None:
+        return run.anchor_missing(rule, "unicode::mcc::sort_by_modified_combining_class")
+    import guards
+    prov = sym.Prov(b)
+    conds = guards.branch_conditions(b, prov)
+    sorts = [bi for bi, t in b.calls() if (t["callee"].get("path") or "").split("::")[-1] in ("sort_by_key", "sort_by", "sort_by_cached_key")]
+    if not sorts:
+        return run.fail(rule, "mcc-sort-conditional", "sort_by_modified_combining_class does not call a stable sort", "%s:%s" % (b.file, b.line))
+    if conds:
+        run.fail(rule, "mcc-sort-conditional", "sort_by_modified_combining_class compares before sorting (%s): some mark runs are left unsorted" % (
+            ", ".join("%s %s" % (c[2], sym.show(sym.strip(c[4]))[:20]) for c in conds[:3])), "%s:%s" % (b.file, b.line))
+    else:
+        run.ok(rule, "the sort of each run is unconditional")
+
+
 def check(run, fx, tier, floors=True):
     if floors or fx.body("scripts::arabic::is_modifier_combining_mark") is not None:
         t17_mcm(run, fx)
@@ -303,6 +323,8 @@ def check(run, fx, tier, floors=True):
         t17_ya(run, fx)
     if floors or fx.body("unicode::mcc::modified_combining_class") is not None:
         t17_fast(run, fx)
+    if floors or fx.body("unicode::mcc::sort_by_modified_combining_class") is not None:
+        t17_sort(run, fx)
     r = t17_disp(run, fx)
     rule = "T17-EFF"
     run.rule(rule, "every use of the character buffer's mutable capability reachable from preprocess_text is a stable permutation primitive or a "
